@@ -634,4 +634,51 @@ class Shelf(Generic[T]):
             ctx.violation("dump-differs:iterable-model", f"{label}: dump {d!r:.200}, expected {good_d!r}", {"source": source})
 
 
-DIRECTED = {"iterable-models": _iterable_models, "undecorated-children": _undecorated_children, "attrs-handwritten-init": _attrs_handwritten_init, "pydantic-one-parameter": _pydantic_one_parameter, "generic-namedtuple-one-parameter": _directed, "initvar-of-type-variable": _initvar, "inherited-init-false-fields": _init_false_fields}
+def _pipe_unions_of_builtin_generics(ctx):
+    """A field written `list[T] | None` or `dict[K, T] | list[T]` is a types.UnionType (not typing.Union) whose __parameters__ are as good
+    as any: the type variables inside are substituted like in Optional[list[T]] (seeded change: UnionType objects reported no type
+    variables)."""
+    if sys.version_info < (3, 10):
+        return
+    mod = types.ModuleType(f"vlib_c16_pipe{next(_n)}")
+    sys.modules[mod.__name__] = mod
+    source = """
+from typing import Generic, TypeVar, Optional, List
+from dataclasses import dataclass
+T = TypeVar('T')
+K = TypeVar('K')
+@dataclass
+class Pipe(Generic[T]):
+    x: list[T] | None
+    y: dict[str, T] | list[T]
+@dataclass
+class Typing(Generic[T]):
+    x: Optional[List[T]]
+    y: dict[str, T] | list[T]
+@dataclass
+class Child(Pipe[int]):
+    z: int = 0
+@dataclass
+class Two(Generic[K, T]):
+    m: dict[K, T] | None
+"""
+    exec(compile(source, f"<{mod.__name__}>", "exec", dont_inherit=True), mod.__dict__)  # noqa: S102
+    cases = [("Pipe[int]", mod.Pipe[int], {"x": [1], "y": {"k": 2}}, {"x": ["s"], "y": [1]}), ("Pipe[str]", mod.Pipe[str], {"x": None, "y": ["s"]}, {"x": None, "y": [1]}),
+             ("Typing[int]", mod.Typing[int], {"x": [1], "y": [2]}, {"x": [1], "y": ["s"]}), ("Child", mod.Child, {"x": [1], "y": [2], "z": 3}, {"x": ["s"], "y": [2], "z": 3}),
+             ("Two[str, int]", mod.Two[str, int], {"m": {"k": 1}}, {"m": {"k": "v"}})]
+    for label, hint, good_d, bad_d in cases:
+        ok_, ko_ = attempt(Retort().load, good_d, hint), attempt(Retort().load, bad_d, hint)
+        ctx.evaluated(("directed-pipe-union", label), nontrivial=True)
+        ctx.count("conforming_loads")
+        ctx.count("nonconforming_loads")
+        if ok_.kind != "ok":
+            ctx.violation("conforming-data-rejected:pipe-union-field", f"{label}: {good_d!r} -> {ok_!r:.250}", {"source": source})
+            continue
+        if ko_.kind == "ok":
+            ctx.violation("other-substitution-accepted:pipe-union-field", f"{label}: {bad_d!r} accepted", {"source": source})
+        d = attempt(Retort().dump, ok_.value, hint)
+        if d.kind != "ok" or not _dump_eq(d.value, good_d):
+            ctx.violation("dump-differs:pipe-union-field", f"{label}: dump {d!r:.200}, expected {good_d!r}", {"source": source})
+
+
+DIRECTED = {"pipe-unions-of-builtin-generics": _pipe_unions_of_builtin_generics, "iterable-models": _iterable_models, "undecorated-children": _undecorated_children, "attrs-handwritten-init": _attrs_handwritten_init, "pydantic-one-parameter": _pydantic_one_parameter, "generic-namedtuple-one-parameter": _directed, "initvar-of-type-variable": _initvar, "inherited-init-false-fields": _init_false_fields}
